@@ -102,6 +102,21 @@ func init() {
 			for k := 0; k < nsp; k++ {
 				add("filespan", all, false, "all")
 			}
+			// scenario logs go nowhere: a logger whose handler is disabled for every level, with --verbose
+			// (so that the iteration handles log through it); marking failures must not depend on logging
+			nq := 4
+			if tier == "thorough" {
+				nq = 30
+			}
+			for k := 0; k < nq; k++ {
+				add(modes[k%len(modes)], all, false, "all")
+				last := &cs[len(cs)-1]
+				var qp c07Params
+				last.Params(&qp)
+				qp.Spec.QuietLogger, qp.Spec.Verbose = true, true
+				qp.Desc += " quiet-logger+verbose"
+				last.P = core.MustJSON(qp)
+			}
 			return cs
 		},
 		Kinds:  map[string]core.RunFunc{"run": c07Run},
